@@ -8,23 +8,28 @@
 #include <fcppt/container/grid/clamped_min.hpp>
 #include <fcppt/container/grid/clamped_sup.hpp>
 #include <fcppt/container/grid/clamped_sup_signed.hpp>
+#include <fcppt/container/grid/comparison.hpp>
 #include <fcppt/container/grid/dim.hpp>
 #include <fcppt/container/grid/end_position.hpp>
 #include <fcppt/container/grid/fill.hpp>
 #include <fcppt/container/grid/in_range.hpp>
 #include <fcppt/container/grid/in_range_dim.hpp>
+#include <fcppt/container/grid/interpolate.hpp>
+#include <fcppt/container/grid/make_min.hpp>
 #include <fcppt/container/grid/make_pos_range.hpp>
 #include <fcppt/container/grid/make_pos_range_start_end.hpp>
 #include <fcppt/container/grid/make_pos_ref_crange.hpp>
 #include <fcppt/container/grid/make_pos_ref_crange_start_end.hpp>
 #include <fcppt/container/grid/make_pos_ref_range.hpp>
 #include <fcppt/container/grid/make_pos_ref_range_start_end.hpp>
+#include <fcppt/container/grid/make_sup.hpp>
 #include <fcppt/container/grid/map.hpp>
 #include <fcppt/container/grid/min.hpp>
 #include <fcppt/container/grid/min_less_sup.hpp>
 #include <fcppt/container/grid/next_position.hpp>
 #include <fcppt/container/grid/object.hpp>
 #include <fcppt/container/grid/offset.hpp>
+#include <fcppt/container/grid/output.hpp>
 #include <fcppt/container/grid/pos.hpp>
 #include <fcppt/container/grid/pos_range.hpp>
 #include <fcppt/container/grid/pos_ref_range.hpp>
@@ -32,18 +37,25 @@
 #include <fcppt/container/grid/range_dim.hpp>
 #include <fcppt/container/grid/range_size.hpp>
 #include <fcppt/container/grid/resize.hpp>
+#include <fcppt/container/grid/static_row.hpp>
 #include <fcppt/container/grid/sup.hpp>
+#include <fcppt/math/dim/comparison.hpp>
 #include <fcppt/math/dim/contents.hpp>
 #include <fcppt/math/dim/init.hpp>
 #include <fcppt/math/dim/static.hpp>
+#include <fcppt/math/vector/comparison.hpp>
 #include <fcppt/math/vector/init.hpp>
 #include <fcppt/math/vector/static.hpp>
 #include <fcppt/optional/maybe.hpp>
 #include <fcppt/optional/reference.hpp>
 #include <fcppt/reference.hpp>
 
+#include <algorithm>
 #include <cstddef>
+#include <memory>
+#include <sstream>
 #include <string>
+#include <utility>
 #include <vector>
 
 namespace
@@ -161,6 +173,8 @@ struct arith
     auto const rs = grid::range_size(m, s);
     r += " size=" + (static_cast<ll>(sz) == static_cast<ll>(rs) ? std::to_string(rs) : std::string("size-mismatch"));
     r += " end=" + ty::str(grid::end_position(m, s));
+    if (!(range.min().get() == m.get()) || !(range.sup().get() == s.get()))
+      return r + " accessor-mismatch";
     std::size_t n = 0;
     std::string ps;
     for (auto it = range.begin(); it != range.end(); ++it)
@@ -172,7 +186,78 @@ struct arith
       ps += ty::str(*it);
       ++n;
     }
+    // iterator protocol (demanded, not modelled): the same positions through *it++; a copy taken before an
+    // increment stays where it was and compares unequal to the advanced iterator; equality is reflexive;
+    // begin() of a non-empty range is not end()
+    {
+      auto it = range.begin();
+      auto const first = range.begin();
+      auto const end = range.end();
+      bool ok = (it == first) && !(it != first) && (end == range.end()) && ((n == 0) == (first == end));
+      std::size_t k = 0;
+      std::string ps2;
+      while (it != end && k < n + 1)
+      {
+        auto const saved = it;
+        auto const old = it++;
+        ok = ok && old == saved && !(old != saved) && ty::str(*old) == ty::str(*saved) && it != saved && !(it == saved) &&
+             !(saved == end);
+        if (k)
+          ps2 += '|';
+        ps2 += ty::str(*saved);
+        ++k;
+      }
+      ok = ok && k == n && ps2 == ps && (n == 0 || ty::str(*first) == ty::str(m.get()));
+      // the public members increment / dereference / equal called directly, copy assignment, member and free swap
+      if (n >= 2)
+      {
+        auto a = range.begin();
+        auto b = range.begin();
+        b.increment();
+        std::string const pa = ty::str(a.dereference()), pb = ty::str(b.dereference());
+        ok = ok && pa == ty::str(m.get()) && a.equal(range.begin()) && !a.equal(b) && b.equal(++range.begin());
+        a.swap(b);
+        ok = ok && ty::str(*a) == pb && ty::str(*b) == pa && a != b;
+        swap(a, b); // fcppt::iterator::swap by argument-dependent lookup
+        ok = ok && ty::str(*a) == pa && ty::str(*b) == pb;
+        a.swap(a);
+        ok = ok && ty::str(*a) == pa;
+        auto c = range.end();
+        c = b; // copy assignment
+        ok = ok && c == b && ty::str(*c) == pb;
+        auto &cr = c;
+        c = cr; // self-assignment
+        ok = ok && c == b;
+        ++c;
+        ok = ok && (n == 2 ? c == end : ty::str(*c) != pb) && ty::str(*b) == pb;
+      }
+      if (!ok)
+        return r + " iterator-protocol-mismatch";
+    }
     return r + " n=" + std::to_string(n) + " ps=" + (n ? ps : "-");
+  }
+};
+
+// a cell type whose move is visible: the rvalue overloads of resize / map / apply (move_if_rvalue) must move
+// every source cell at most once and must produce the values of the lvalue overloads; the lvalue overloads must
+// leave the source alone
+constexpr long moved_mark = -777777;
+
+struct tcell
+{
+  long v;
+  explicit tcell(long const x) : v(x) {}
+  tcell(tcell const &) = default;
+  tcell(tcell &&o) noexcept : v(o.v) { o.v = moved_mark; }
+  tcell &operator=(tcell const &) = default;
+  tcell &operator=(tcell &&o) noexcept
+  {
+    if (&o != this)
+    {
+      v = o.v;
+      o.v = moved_mark;
+    }
+    return *this;
   }
 };
 
@@ -180,6 +265,7 @@ template <std::size_t N>
 struct gr
 {
   using G = grid::object<long, N>;
+  using TG = grid::object<tcell, N>;
   using size_type = typename G::size_type;
   using ut = types<size_type, N>;
   using st = types<long, N>;
@@ -191,12 +277,66 @@ struct gr
     return G(ut::to_dim(d), [k](pos const &p) { return static_cast<long>(enc(k, ut::from(p))); });
   }
 
+  // the function constructor must call the function once per position, in storage order (x fastest)
+  static bool mk_call_order_ok(ivec const &d, ll k)
+  {
+    std::vector<ivec> seen;
+    G const g(ut::to_dim(d), [k, &seen](pos const &p) {
+      seen.push_back(ut::from(p));
+      return static_cast<long>(enc(k, ut::from(p)));
+    });
+    std::vector<ivec> want;
+    tuples(konst_(0), d, [&want](ivec const &t) { want.push_back(t); });
+    return seen == want;
+  }
+
+  static ivec konst_(ll c) { return ivec(N, c); }
+
+  static std::size_t volume(ivec const &d)
+  {
+    std::size_t r = 1;
+    for (ll x : d)
+      r *= static_cast<std::size_t>(x);
+    return r;
+  }
+
+  static TG mkt(ivec const &d, ll k)
+  {
+    return TG(ut::to_dim(d), [k](pos const &p) { return tcell(static_cast<long>(enc(k, ut::from(p)))); });
+  }
+
   static std::string cells(G const &g)
   {
     ivec v;
     for (auto it = g.begin(); it != g.end() && v.size() <= loop_cap; ++it)
       v.push_back(*it);
     return il(v);
+  }
+
+  static std::string cells(TG const &g)
+  {
+    ivec v;
+    for (auto it = g.begin(); it != g.end() && v.size() <= loop_cap; ++it)
+      v.push_back(it->v);
+    return il(v);
+  }
+
+  static std::size_t moved_count(TG const &g)
+  {
+    std::size_t n = 0;
+    for (auto it = g.begin(); it != g.end(); ++it)
+      if (it->v == moved_mark)
+        ++n;
+    return n;
+  }
+
+  // number of positions common to two sizes (computed independently of the code under test)
+  static std::size_t common(ivec const &a, ivec const &b)
+  {
+    std::size_t r = 1;
+    for (std::size_t i = 0; i < N; ++i)
+      r *= static_cast<std::size_t>(std::min(a[i], b[i]));
+    return r;
   }
 
   static std::string grid_str(G const &g)
@@ -237,6 +377,45 @@ struct gr
       rs += ut::str(element.pos()) + ":" + std::to_string(element.value());
       ++n;
     }
+    // pos_ref_iterator: the same elements through (*it++), copies stay, direct members, swap, copy assignment
+    {
+      auto it = range.begin();
+      auto const end = range.end();
+      bool ok = (it == range.begin()) && ((n == 0) == (it == end));
+      std::size_t k = 0;
+      std::string rs2;
+      while (it != end && k < n + 1)
+      {
+        auto const saved = it;
+        auto const old = it++;
+        auto const e = *old;
+        auto const e2 = saved.dereference();
+        ok = ok && old == saved && it != saved && !it.equal(saved) && &e.value() == &e2.value() && e.pos() == e2.pos();
+        if (k)
+          rs2 += '|';
+        rs2 += ut::str(e.pos()) + ":" + std::to_string(e.value());
+        ++k;
+      }
+      ok = ok && k == n && (n == 0 ? rs2.empty() : rs2 == rs);
+      if (n >= 2)
+      {
+        auto a = range.begin();
+        auto b = range.begin();
+        b.increment();
+        auto const *const va = &(*a).value();
+        auto const *const vb = &(*b).value();
+        ok = ok && va != vb;
+        a.swap(b);
+        ok = ok && &(*a).value() == vb && &(*b).value() == va;
+        swap(a, b);
+        ok = ok && &(*a).value() == va && &(*b).value() == vb;
+        auto c = range.end();
+        c = a;
+        ok = ok && c == a && &(*c).value() == va;
+      }
+      if (!ok)
+        return "ref-iterator-protocol-mismatch";
+    }
     return n ? rs : "-";
   }
 
@@ -271,37 +450,324 @@ struct gr
   static std::string resize_line(ivec const &d, ll k, ivec const &nd, ll k2)
   {
     G const g{mk(d, k)};
-    auto const init = [k2](pos const &p) { return static_cast<long>(enc(k2, ut::from(p))); };
+    std::size_t init_calls = 0;
+    auto const init = [k2, &init_calls](pos const &p) {
+      ++init_calls;
+      return static_cast<long>(enc(k2, ut::from(p)));
+    };
     G const r{grid::resize(g, ut::to_dim(nd), init)};
+    // init is called for the positions that are not positions of the old grid, and only for those
+    if (init_calls != volume(nd) - common(d, nd))
+      return "resize-called-init-wrong-number-of-times";
+    init_calls = 0;
     // the rvalue overload moves the cells; for long the result must be identical
     G const r2{grid::resize(mk(d, k), ut::to_dim(nd), init)};
     if (!(r.size() == r2.size()) || cells(r) != cells(r2))
       return "lvalue-and-rvalue-resize-differ";
+    // cells with a visible move: non-const lvalue source stays as it was, rvalue source loses exactly the cells
+    // that are positions of both grids, results are the same
+    auto const tinit = [k2](pos const &p) { return tcell(static_cast<long>(enc(k2, ut::from(p)))); };
+    TG src{mkt(d, k)};
+    std::string const before = cells(src);
+    TG const t1{grid::resize(src, ut::to_dim(nd), tinit)};
+    if (cells(src) != before || !(src.size() == g.size()))
+      return "lvalue-resize-modified-its-source";
+    TG const t2{grid::resize(std::move(src), ut::to_dim(nd), tinit)};
+    if (!(t1.size() == r.size()) || !(t2.size() == r.size()) || cells(t1) != cells(r) || cells(t2) != cells(r))
+      return "tracked-resize-differs";
+    if (moved_count(src) != common(d, nd)) // NOLINT(bugprone-use-after-move): only the cells were moved
+      return "rvalue-resize-moved-wrong-cells";
+    // aliasing: the new size is the grid's own size() (a reference into the argument), and the result is assigned
+    // back to the source (g = resize(g, ...), g = resize(std::move(g), ...))
+    {
+      G a{mk(d, k)};
+      G const same{grid::resize(a, a.size(), init)};
+      if (!(same == a))
+        return "resize-to-own-size-changed-the-grid";
+      G b{mk(d, k)};
+      b = grid::resize(b, ut::to_dim(nd), init);
+      G c{mk(d, k)};
+      c = grid::resize(std::move(c), ut::to_dim(nd), init);
+      TG e{mkt(d, k)};
+      e = grid::resize(std::move(e), e.size(), tinit); // NOLINT(bugprone-use-after-move)
+      if (!(b == r) || !(c == r) || cells(e) != cells(mk(d, k)) || !(e.size() == a.size()))
+        return "resize-assigned-back-differs";
+    }
     return grid_str(r);
   }
 
   static std::string map_line(ivec const &d, ll k, ll a, ll b)
   {
     G const g{mk(d, k)};
-    return grid_str(grid::map(g, [a, b](long const x) { return static_cast<long>(a * x + b); }));
+    std::size_t calls = 0;
+    G const r{grid::map(g, [a, b, &calls](long const x) {
+      ++calls;
+      return static_cast<long>(a * x + b);
+    })};
+    if (calls != volume(d))
+      return "map-called-function-wrong-number-of-times";
+    {
+      // the same object as both operands of apply: cell i of the result is f(cell i, cell i)
+      G const twice{grid::apply([](long const x, long const y) { return static_cast<long>(x * 3 - y); }, g, g)};
+      auto it = g.begin();
+      bool ok = twice.size() == g.size();
+      for (auto jt = twice.begin(); ok && jt != twice.end(); ++jt, ++it)
+        ok = it != g.end() && *jt == *it * 3 - *it;
+      if (!ok || it != g.end())
+        return "apply-same-object-mismatch";
+      G const thrice{grid::apply([](long const x, long const y, long const z) { return static_cast<long>(x * 5 - y - z); }, g, g, g)};
+      auto it3 = g.begin();
+      bool ok3 = thrice.size() == g.size();
+      for (auto jt = thrice.begin(); ok3 && jt != thrice.end(); ++jt, ++it3)
+        ok3 = it3 != g.end() && *jt == *it3 * 3;
+      if (!ok3 || it3 != g.end())
+        return "apply-same-object-mismatch";
+      // the result assigned back to the source
+      G h{mk(d, k)};
+      h = grid::map(h, [a, b](long const x) { return static_cast<long>(a * x + b); });
+      G h2{mk(d, k)};
+      h2 = grid::map(std::move(h2), [a, b](long const x) { return static_cast<long>(a * x + b); });
+      G h3{mk(d, k)};
+      h3 = grid::apply([a, b](long const x, long const y) { return static_cast<long>(a * x + b + y - x); }, h3, h3);
+      if (!(h == r) || !(h2 == r) || !(h3 == r))
+        return "map-assigned-back-differs";
+    }
+    auto const tf = [a, b](tcell const c) { return static_cast<long>(a * c.v + b); }; // by value: an rvalue cell is moved from
+    TG src{mkt(d, k)};
+    std::string const before = cells(src);
+    G const t1{grid::map(src, tf)};
+    if (cells(src) != before)
+      return "lvalue-map-modified-its-source";
+    G const t2{grid::map(std::move(src), tf)};
+    if (!(t1.size() == r.size()) || !(t2.size() == r.size()) || cells(t1) != cells(r) || cells(t2) != cells(r))
+      return "tracked-map-differs";
+    if (moved_count(src) != common(d, d)) // NOLINT(bugprone-use-after-move)
+      return "rvalue-map-moved-wrong-cells";
+    return grid_str(r);
   }
 
   static std::string apply_line(std::vector<ivec> const &ds, std::vector<ll> const &ks)
   {
     G const g1{mk(ds[0], ks[0])};
     G const g2{mk(ds[1], ks[1])};
+    TG s1{mkt(ds[0], ks[0])}, s2{mkt(ds[1], ks[1])};
+    std::string const b1 = cells(s1), b2 = cells(s2);
     if (ds.size() == 2)
-      return grid_str(grid::apply([](long const a, long const b) { return static_cast<long>(a * 1009 + b); }, g1, g2));
+    {
+      std::size_t calls = 0;
+      G const r{grid::apply([&calls](long const a, long const b) {
+        ++calls;
+        return static_cast<long>(a * 1009 + b);
+      }, g1, g2)};
+      if (calls != (ds[0] == ds[1] ? volume(ds[0]) : 0))
+        return "apply-called-function-wrong-number-of-times";
+      auto const tf = [](tcell const a, tcell const b) { return static_cast<long>(a.v * 1009 + b.v); };
+      G const t1{grid::apply(tf, s1, s2)};
+      if (cells(s1) != b1 || cells(s2) != b2)
+        return "lvalue-apply-modified-its-source";
+      // mixed value categories: first an lvalue, second an rvalue
+      G const t2{grid::apply(tf, s1, std::move(s2))};
+      if (!(t1.size() == r.size()) || !(t2.size() == r.size()) || cells(t1) != cells(r) || cells(t2) != cells(r))
+        return "tracked-apply-differs";
+      bool const same = ds[0] == ds[1];
+      if (cells(s1) != b1 || moved_count(s2) != (same ? common(ds[1], ds[1]) : 0)) // NOLINT(bugprone-use-after-move)
+        return "rvalue-apply-moved-wrong-cells";
+      return grid_str(r);
+    }
     G const g3{mk(ds[2], ks[2])};
-    return grid_str(grid::apply(
-        [](long const a, long const b, long const c) { return static_cast<long>((a * 1009 + b) * 1009 + c); }, g1, g2, g3));
+    TG s3{mkt(ds[2], ks[2])};
+    std::string const b3 = cells(s3);
+    G const r{grid::apply(
+        [](long const a, long const b, long const c) { return static_cast<long>((a * 1009 + b) * 1009 + c); }, g1, g2, g3)};
+    auto const tf = [](tcell const a, tcell const b, tcell const c) { return static_cast<long>((a.v * 1009 + b.v) * 1009 + c.v); };
+    G const t1{grid::apply(tf, s1, s2, s3)};
+    if (cells(s1) != b1 || cells(s2) != b2 || cells(s3) != b3)
+      return "lvalue-apply-modified-its-source";
+    // rvalue, lvalue, rvalue
+    G const t2{grid::apply(tf, std::move(s1), s2, std::move(s3))};
+    if (!(t1.size() == r.size()) || !(t2.size() == r.size()) || cells(t1) != cells(r) || cells(t2) != cells(r))
+      return "tracked-apply-differs";
+    bool const same = ds[0] == ds[1] && ds[0] == ds[2];
+    if (cells(s2) != b2 || moved_count(s1) != (same ? common(ds[0], ds[0]) : 0) || // NOLINT(bugprone-use-after-move)
+        moved_count(s3) != (same ? common(ds[2], ds[2]) : 0))
+      return "rvalue-apply-moved-wrong-cells";
+    return grid_str(r);
   }
 
   static std::string fill_line(ivec const &d, ll v, ll k)
   {
     G g(ut::to_dim(d), static_cast<long>(v));
-    grid::fill(g, [k](pos const &p) { return static_cast<long>(enc(k, ut::from(p))); });
+    std::size_t calls = 0;
+    grid::fill(g, [k, &calls](pos const &p) {
+      ++calls;
+      return static_cast<long>(enc(k, ut::from(p)));
+    });
+    if (calls != volume(d))
+      return "fill-called-function-wrong-number-of-times";
     return grid_str(g);
+  }
+
+  // three objects, a history of special-member calls, then all three printed (a moved-from object only by its size())
+  static std::string regs_line(std::vector<ivec> const &ds, std::vector<ll> const &ks, std::string const &prog)
+  {
+    std::vector<std::unique_ptr<G>> slots;
+    std::vector<bool> moved(3, false);
+    for (std::size_t i = 0; i < 3; ++i)
+      slots.push_back(std::make_unique<G>(mk(ds[i], ks[i])));
+    std::size_t at = 0;
+    while (prog != "-" && at <= prog.size())
+    {
+      std::size_t const dot = std::min(prog.find('.', at), prog.size());
+      std::string const op = prog.substr(at, dot - at);
+      at = dot + 1;
+      if (op.size() == 3 && op[0] == 'd' && op[1] == 'c' && op[2] >= '0' && op[2] <= '9')
+      {
+        std::size_t const d = static_cast<std::size_t>(op[2] - '0');
+        if (d >= 3)
+          return "bad-op";
+        slots[d] = std::make_unique<G>();
+        moved[d] = false;
+        continue;
+      }
+      if (op.size() != 4 || op[2] < '0' || op[2] > '9' || op[3] < '0' || op[3] > '9')
+        return "bad-op";
+      std::size_t const d = static_cast<std::size_t>(op[2] - '0'), s = static_cast<std::size_t>(op[3] - '0');
+      std::string const kind = op.substr(0, 2);
+      if (d >= 3 || s >= 3)
+        return "bad-op";
+      if (kind == "cc")
+      {
+        if (d == s || moved[s])
+          return "bad-op";
+        G const &src = *slots[s];
+        slots[d] = std::make_unique<G>(src);
+        moved[d] = false;
+      }
+      else if (kind == "mc")
+      {
+        if (d == s || moved[s])
+          return "bad-op";
+        slots[d] = std::make_unique<G>(std::move(*slots[s]));
+        moved[d] = false;
+        moved[s] = true;
+      }
+      else if (kind == "ca")
+      {
+        if (moved[s])
+          return "bad-op";
+        G const &src = *slots[s];
+        G &dst = *slots[d];
+        dst = src;
+        moved[d] = false;
+      }
+      else if (kind == "ma")
+      {
+        G &src = *slots[s];
+        G &dst = *slots[d];
+        if (d != s && moved[s])
+          return "bad-op";
+        dst = std::move(src);
+        if (d != s)
+        {
+          moved[d] = false;
+          moved[s] = true;
+        }
+      }
+      else if (kind == "sm" || kind == "sf")
+      {
+        G &a = *slots[d];
+        G &b = *slots[s];
+        if (kind == "sm")
+          a.swap(b);
+        else
+          swap(a, b); // grid::swap by argument-dependent lookup
+        bool const t = moved[d];
+        moved[d] = moved[s];
+        moved[s] = t;
+      }
+      else
+        return "bad-op";
+    }
+    std::string r;
+    for (std::size_t i = 0; i < 3; ++i)
+      r += std::string(i ? " ; " : "") + (moved[i] ? "moved size=" + ut::str(slots[i]->size()) : grid_str(*slots[i]));
+    return r;
+  }
+
+  static G from_cells(ivec const &d, ivec const &c)
+  {
+    G g(ut::to_dim(d), 0L);
+    std::size_t i = 0;
+    for (auto it = g.begin(); it != g.end() && i < c.size(); ++it, ++i)
+      *it = static_cast<long>(c[i]);
+    return g;
+  }
+
+  static std::string cmp_line(ivec const &d1, ivec const &c1, ivec const &d2, ivec const &c2)
+  {
+    G const a{from_cells(d1, c1)};
+    G const b{from_cells(d2, c2)};
+    auto const bit = [](bool const x) { return std::string(x ? "1" : "0"); };
+    // operands that are the same object
+    if (!(a == a) || a != a || a < a || a > a || !(a <= a) || !(a >= a))
+      return "self-comparison-mismatch";
+    return "eq=" + bit(a == b) + " ne=" + bit(a != b) + " lt=" + bit(a < b) + " gt=" + bit(a > b) + " le=" + bit(a <= b) +
+           " ge=" + bit(a >= b);
+  }
+
+  // interpolate at the position fl + q/4 (exact in binary floating point) with an interpolator that only records
+  // its arguments: ip(f, a, b) = (4f + 1) * 1000003 + 7a + 13b
+  static std::string interp_line(G const &g, ivec const &fl, ivec const &q)
+  {
+    using fvec = fcppt::math::vector::static_<double, N>;
+    fvec const p{fcppt::math::vector::init<fvec>([&fl, &q](auto const i) {
+      return static_cast<double>(fl[decltype(i)::value]) + static_cast<double>(q[decltype(i)::value]) / 4.0;
+    })};
+    long const r{grid::interpolate(g, p, [](double const f, long const a, long const b) {
+      return static_cast<long>((static_cast<long>(f * 4.0) + 1) * 1000003 + 7 * a + 13 * b);
+    })};
+    return "ip=" + std::to_string(r);
+  }
+
+  static bool interp_ok(ivec const &d, ivec const &fl, ivec const &q)
+  {
+    for (std::size_t i = 0; i < N; ++i)
+      if (fl[i] < 0 || fl[i] + 1 >= d[i] || q[i] < 0 || q[i] > 3)
+        return false;
+    return true;
+  }
+
+  // fill with a function that reads the grid being filled: the first / last / previous / next / current cell, + 7.
+  // "previous" and "next" are in storage order, computed here independently of the code under test.
+  static std::string fillself_line(ivec const &d, ll k, ll mode)
+  {
+    G g{mk(d, k)};
+    std::vector<ivec> order;
+    tuples(konst_(0), d, [&order](ivec const &t) { order.push_back(t); });
+    grid::fill(g, [&g, &d, &order, mode](pos const &p) {
+      ivec const cur = ut::from(p);
+      ivec src = cur;
+      std::size_t i = 0;
+      while (i < order.size() && order[i] != cur)
+        ++i;
+      if (mode == 0)
+        src = konst_(0);
+      else if (mode == 1)
+        src = plus_(d, -1);
+      else if (mode == 2 && i > 0)
+        src = order[i - 1];
+      else if (mode == 3 && i + 1 < order.size())
+        src = order[i + 1];
+      return static_cast<long>(g.get_unsafe(ut::to_pos(src)) + 7);
+    });
+    return grid_str(g);
+  }
+
+  static ivec plus_(ivec v, ll m)
+  {
+    for (ll &x : v)
+      x += m;
+    return v;
   }
 
   static std::string clamp_line(ivec const &d, ivec const &p)
@@ -319,10 +785,19 @@ struct gr
     auto const mn = grid::clamped_min(st::to_pos(smin));
     auto const sp = grid::clamped_sup_signed(st::to_pos(ssup), ut::to_dim(d));
     auto const range = grid::make_pos_ref_range_start_end(g, mn, sp);
-    std::size_t n = 0;
+    std::size_t n = 0, n2 = 0;
     std::string const ref = ref_str(range, n);
+    G const &cg = g;
+    auto const crange = grid::make_pos_ref_crange_start_end(cg, mn, sp);
+    if (ref_str(crange, n2) != ref || n2 != n || crange.size() != range.size())
+      return "const-and-mutable-range-differ";
+    // write through the references of the sub-range into a copy: exactly the cells of the box change
+    G copy{g};
+    ll const k2 = 5;
+    for (auto const &element : grid::make_pos_ref_range_start_end(copy, grid::make_min(mn.get()), grid::make_sup(sp.get())))
+      element.value() = static_cast<long>(enc(k2, ut::from(element.pos())));
     return "mn=" + ut::str(range.min().get()) + " sp=" + ut::str(range.sup().get()) + " size=" + std::to_string(range.size()) +
-           " n=" + std::to_string(n) + " ref=" + ref;
+           " n=" + std::to_string(n) + " ref=" + ref + " w=" + cells(copy);
   }
 };
 
@@ -390,7 +865,11 @@ std::string handle_grid(std::vector<std::string> const &t)
   std::string const &op = t[0];
   ivec const d = vh::int_list(t[1]);
   if (op == "mk")
+  {
+    if (!R::mk_call_order_ok(d, vh::to_ll(t[2])))
+      return "function-constructor-call-order-mismatch";
     return R::grid_str(R::mk(d, vh::to_ll(t[2])));
+  }
   if (op == "mkc")
     return R::grid_str(typename R::G(R::ut::to_dim(d), static_cast<long>(vh::to_ll(t[2]))));
   if (op == "all")
@@ -421,6 +900,51 @@ std::string handle_grid(std::vector<std::string> const &t)
   }
   if (op == "fill")
     return R::fill_line(d, vh::to_ll(t[2]), vh::to_ll(t[3]));
+  if (op == "out")
+  {
+    typename R::G const g{R::mk(d, vh::to_ll(t[2]))};
+    std::ostringstream o;
+    o << g;
+    return "out=" + o.str();
+  }
+  if (op == "interp")
+  {
+    ivec const fl = vh::int_list(t[3]), q = vh::int_list(t[4]);
+    if (!R::interp_ok(d, fl, q))
+      return "bad-op";
+    typename R::G const g{R::mk(d, vh::to_ll(t[2]))};
+    return R::interp_line(g, fl, q);
+  }
+  if (op == "interps")
+  {
+    for (ll x : d)
+      if (x < 2)
+        return "bad-op";
+    typename R::G const g{R::mk(d, vh::to_ll(t[2]))};
+    // all integral parts with every neighbour in range, all fractional parts in quarters
+    std::uint64_t h = vh::fnv_init;
+    tuples(konst(N, 0), plus(d, -1), [&h, &g](ivec const &fl) {
+      tuples(konst(N, 0), konst(N, 4), [&h, &g, &fl](ivec const &q) { h = vh::fnv(h, R::interp_line(g, fl, q)); });
+    });
+    return "D " + vh::hex64(h);
+  }
+  if (op == "regs")
+    return R::regs_line({d, vh::int_list(t[3]), vh::int_list(t[5])}, {vh::to_ll(t[2]), vh::to_ll(t[4]), vh::to_ll(t[6])}, t[7]);
+  if (op == "cmp")
+  {
+    ivec const c1 = vh::int_list(t[2]), d2 = vh::int_list(t[3]), c2 = vh::int_list(t[4]);
+    auto const prod = [](ivec const &v) { ll r = 1; for (ll x : v) r *= x; return r; };
+    if (static_cast<ll>(c1.size()) != prod(d) || static_cast<ll>(c2.size()) != prod(d2))
+      return "bad-op";
+    return R::cmp_line(d, c1, d2, c2);
+  }
+  if (op == "fillself")
+  {
+    ll const mode = vh::to_ll(t[3]);
+    if (mode < 0 || mode > 4)
+      return "bad-op";
+    return R::fillself_line(d, vh::to_ll(t[2]), mode);
+  }
   if (op == "clamp")
     return R::clamp_line(d, vh::int_list(t[2]));
   if (op == "clamps")
@@ -441,6 +965,46 @@ std::string handle_grid(std::vector<std::string> const &t)
     return digest_tuples(konst(N, -m), plus(d, m + 1), [&g, &d, &smin](ivec const &ssup) { return R::refsub_line(g, d, smin, ssup); });
   }
   return "bad-op";
+}
+
+// static_row constructor: W cells per row, H rows, row y = enc k (0,y) ... enc k (W-1,y)
+template <std::size_t... Xs>
+auto make_row(ll const k, ll const y, std::index_sequence<Xs...>)
+{
+  return grid::static_row(static_cast<long>(enc(k, ivec{static_cast<ll>(Xs), y}))...);
+}
+
+template <std::size_t W, std::size_t... Ys>
+std::string rows_wh(ll const k, std::index_sequence<Ys...>)
+{
+  using R = gr<2>;
+  typename R::G const g(make_row(k, static_cast<ll>(Ys), std::make_index_sequence<W>{})...);
+  return R::grid_str(g);
+}
+
+template <std::size_t W>
+std::string rows_w(std::size_t const h, ll const k)
+{
+  switch (h)
+  {
+  case 1: return rows_wh<W>(k, std::make_index_sequence<1>{});
+  case 2: return rows_wh<W>(k, std::make_index_sequence<2>{});
+  case 3: return rows_wh<W>(k, std::make_index_sequence<3>{});
+  case 4: return rows_wh<W>(k, std::make_index_sequence<4>{});
+  default: return "bad-op";
+  }
+}
+
+std::string rows_line(std::size_t const w, std::size_t const h, ll const k)
+{
+  switch (w)
+  {
+  case 1: return rows_w<1>(h, k);
+  case 2: return rows_w<2>(h, k);
+  case 3: return rows_w<3>(h, k);
+  case 4: return rows_w<4>(h, k);
+  default: return "bad-op";
+  }
 }
 
 // shape check shared with the Lean driver: which tokens are lists, all of the same length 1..3
@@ -487,10 +1051,16 @@ std::string handle(std::vector<std::string> const &t)
       default: return "bad-op";
       }
     }
+    if (op == "rows")
+    {
+      if (t.size() != 4 || t[1].find('-') != std::string::npos || t[2].find('-') != std::string::npos)
+        return "bad-op";
+      return rows_line(static_cast<std::size_t>(vh::to_ull(t[1])), static_cast<std::size_t>(vh::to_ull(t[2])), vh::to_ll(t[3]));
+    }
     std::vector<std::size_t> lists;   // list arguments that must be non-negative
     std::vector<std::size_t> slists;  // signed list arguments
     std::size_t want = 0;
-    if (op == "mk" || op == "mkc" || op == "refall") { lists = {1}; want = 3; }
+    if (op == "mk" || op == "mkc" || op == "refall" || op == "out") { lists = {1}; want = 3; }
     else if (op == "all") { lists = {1}; want = 2; }
     else if (op == "at") { lists = {1, 3}; want = 4; }
     else if (op == "ats") { lists = {1}; want = 4; }
@@ -498,7 +1068,11 @@ std::string handle(std::vector<std::string> const &t)
     else if (op == "map") { lists = {1}; want = 5; }
     else if (op == "apply" && t.size() == 5) { lists = {1, 3}; want = 5; }
     else if (op == "apply" && t.size() == 7) { lists = {1, 3, 5}; want = 7; }
-    else if (op == "fill") { lists = {1}; want = 4; }
+    else if (op == "fill" || op == "fillself") { lists = {1}; want = 4; }
+    else if (op == "interp") { lists = {1, 3, 4}; want = 5; }
+    else if (op == "interps") { lists = {1}; want = 3; }
+    else if (op == "regs") { lists = {1, 3, 5}; want = 8; }
+    else if (op == "cmp") { lists = {1, 3}; want = 5; }
     else if (op == "clamp") { lists = {1}; slists = {2}; want = 3; }
     else if (op == "clamps") { lists = {1}; want = 3; }
     else if (op == "refsub") { lists = {1}; slists = {3, 4}; want = 5; }
